@@ -676,3 +676,54 @@ pub fn csr_replay(scripts: &[Value], log: &mut Log) {
         }
     }
 }
+
+// ------------------------------------------------------------------------------------------------
+// GraphMapImpl.tla -> implementation: exported state histories replayed on the real GraphMap.  Verdicts: every call's
+// result, the node set and the edge map.  Iteration orders (nodes, neighbors, all_edges) are compared as well but only
+// reported: C03 does not promise them.
+fn gm_one<Ty: petgraph::EdgeType>(sc: &Value) -> Result<(Vec<String>, bool), ()> {
+    use petgraph::graphmap::GraphMap;
+    guard(|| {
+        let mut diffs = vec![];
+        let mut g: GraphMap<u32, i64, Ty> = GraphMap::new();
+        let show = |o: Option<i64>| o.map(|x| x.to_string()).unwrap_or("none".into());
+        for (i, op) in sc["hist"].as_array().unwrap().iter().enumerate() {
+            let (a, b, w) = (op["a"].as_u64().unwrap() as u32, op["b"].as_u64().unwrap() as u32, op["w"].as_i64().unwrap());
+            let r: String = match op["op"].as_str().unwrap() {
+                "add_node" => { g.add_node(a); "ok".into() }
+                "add_edge" => show(g.add_edge(a, b, w)),
+                "remove_edge" => show(g.remove_edge(a, b)),
+                _ => g.remove_node(a).to_string(),
+            };
+            if r != op["res"].as_str().unwrap() {
+                diffs.push(format!("call {} {}({},{}) returned {} but the model says {}", i, op["op"], a, b, r, op["res"]));
+            }
+        }
+        let mnodes: Vec<u32> = sc["nodes"].as_array().unwrap().iter().map(|x| x.as_u64().unwrap() as u32).collect();
+        let medges: Vec<(u32, u32, i64)> = sc["edges"].as_array().unwrap().iter().map(|t| (t[0].as_u64().unwrap() as u32, t[1].as_u64().unwrap() as u32, t[2].as_i64().unwrap())).collect();
+        let rnodes: Vec<u32> = g.nodes().collect();
+        let redges: Vec<(u32, u32, i64)> = g.all_edges().map(|(a, b, w)| (a, b, *w)).collect();
+        let sorted = |mut v: Vec<u32>| { v.sort(); v };
+        let canon = |v: &Vec<(u32, u32, i64)>| { let mut v: Vec<_> = v.iter().map(|&(a, b, w)| if Ty::is_directed() || a <= b { (a, b, w) } else { (b, a, w) }).collect(); v.sort(); v };
+        if sorted(rnodes.clone()) != sorted(mnodes.clone()) { diffs.push(format!("node set {:?} vs model {:?}", rnodes, mnodes)); }
+        if canon(&redges) != canon(&medges) { diffs.push(format!("edge map {:?} vs model {:?}", redges, medges)); }
+        if g.node_count() != mnodes.len() || g.edge_count() != medges.len() { diffs.push("counts".into()); }
+        // informational: iteration orders
+        let mut same_order = rnodes == mnodes && redges.iter().map(|t| (t.0, t.1)).collect::<Vec<_>>() == medges.iter().map(|t| (t.0, t.1)).collect::<Vec<_>>();
+        for (k, &n) in mnodes.iter().enumerate() {
+            let adj: Vec<u32> = sc["adj"][k].as_array().unwrap().iter().filter(|e| !Ty::is_directed() || e[1].as_u64().unwrap() == 0).map(|e| e[0].as_u64().unwrap() as u32).collect();
+            if g.contains_node(n) && g.neighbors(n).collect::<Vec<_>>() != adj { same_order = false; }
+        }
+        (diffs, same_order)
+    })
+}
+
+pub fn gm_replay(scripts: &[Value], log: &mut Log) {
+    for (i, sc) in scripts.iter().enumerate() {
+        let r = if sc["directed"].as_bool().unwrap() { gm_one::<petgraph::Directed>(sc) } else { gm_one::<petgraph::Undirected>(sc) };
+        match r {
+            Ok((d, so)) => log.ev(json!({"i": i, "ok": d.is_empty(), "same_order": so, "diffs": d.into_iter().take(4).collect::<Vec<_>>()})),
+            Err(()) => log.ev(json!({"i": i, "ok": false, "same_order": false, "diffs": ["panic"]})),
+        }
+    }
+}
